@@ -401,9 +401,16 @@ impl<T: StarlarkAnyRegistered> FrozenAnyValue<T> {
 /// Used to lazily store a `FrozenAnyValue` reference (e.g., for module back-references
 /// that are populated after freezing).
 pub(crate) struct AtomicFrozenAnyValueOption<T: StarlarkAnyRegistered>(
-    atomic::AtomicPtr<()>,
+    PtrCell,
     std::marker::PhantomData<T>,
 );
+
+/// Storage of [`AtomicFrozenAnyValueOption`].
+#[cfg(not(starlark_verif))]
+type PtrCell = atomic::AtomicPtr<()>;
+/// Storage of [`AtomicFrozenAnyValueOption`] (with scheduling points).
+#[cfg(starlark_verif)]
+type PtrCell = crate::verif::sync::AtomicPtr<()>;
 
 // Lets us transmute `Option<FrozenValue>` <-> `*mut ()`; niche optimization
 // maps `None` to null.
@@ -430,7 +437,7 @@ impl<T: StarlarkAnyRegistered> AtomicFrozenAnyValueOption<T> {
 
     pub(crate) fn new(value: Option<FrozenAnyValue<T>>) -> Self {
         AtomicFrozenAnyValueOption(
-            atomic::AtomicPtr::new(Self::encode(value)),
+            PtrCell::new(Self::encode(value)),
             std::marker::PhantomData,
         )
     }
